@@ -6,10 +6,12 @@ let runners : (string * (string -> string list -> string list list -> (string ->
   ("C08", Drv_c01.run);
   ("C18", Drv_c18.run);
   ("C10", Drv_c10.run);
+  ("C12", Drv_c12.run);
 ]
 
 let () =
   let prop = Sys.argv.(1) and file = Sys.argv.(2) in
+  if prop = "C12" then (Drv_c12.run_impl file (fun s -> print_string s; print_char '\n'); exit 0);
   let run = try Stdlib.List.assoc prop runners with Not_found -> (prerr_endline ("no model runner for " ^ prop); exit 2) in
   let ic = open_in file in
   let out s = print_string s; print_char '\n' in
